@@ -571,10 +571,17 @@ class Program:
         self.impls = []
         self.consts = {}
         self.traits = {}
+        raws = {}
         for fname, key in (("sfs_core.lib.json", "sfs_core"), ("sfs.bin.json", "sfs")):
             path = os.path.join(factdir, fname)
             with open(path) as fh:
-                raw = json.load(fh)
+                raws[key] = json.load(fh)
+        self.canon_report = {"renamed": [], "inlined": [], "new_functions_kept": []}
+        if not os.environ.get("SFSVERIF_NO_CANON"):
+            import canon
+            raws, self.canon_report = canon.canonicalise(raws)
+        for key in ("sfs_core", "sfs"):
+            raw = raws[key]
             self.crates[key] = raw
             for f in raw["fns"]:
                 fn = Fn(f, key)
